@@ -262,7 +262,7 @@ def finish(res, tier, seed, t0, checker_cmd):
             'solve_wall_s': round(rep.solve_wall, 2),
             'functions_under_contract': [{'function': k, **v} for k, v in sorted(rep.functions.items())],
             'refuted_obligations': len(rep.refuted()), 'undecided_obligations': len(rep.open()),
-            'mustfail_obligations_refuted_as_expected': len([1 for _, _, v in rep.verdicts if v.obl.expect == 'refuted' and v.status == 'refuted']),
+            'mustfail_obligations_refuted_as_expected': len({(t.fullname, c.name, v.obl.name) for t, c, v in rep.verdicts if v.obl.expect == 'refuted' and v.status == 'refuted'}),
             'assumed_primitive_models_used': sorted(rep.assumed),
         })
     cov['undecided'] = undecided[:100]
